@@ -24,6 +24,9 @@ def I(t):
     return ('id', t)
 
 
+LITS_NO_RAW_TAB = ['"plain"', '"tab\\there"', '"two  spaces "', '"// not a comment"', '"%d\\n"', '""', 'L"wide"']
+
+
 class Gen:
     def __init__(self, draw, max_depth, pp=True):
         self.draw = draw
@@ -110,7 +113,7 @@ class Gen:
         if k == 5:
             return [K('return')] + (self.expr(vars_) if self.coin(0.8) else [P('('), ] + self.expr(vars_) + [P(')')]) + [P(';')]
         if self.lits and self.coin(0.8):
-            lit = self.choice(['"plain"', '"tab\there"', '"raw	tab"', '"two  spaces "', '"q\\"uote"', '"// not a comment"', '"/* nor this */"',
+            lit = self.choice(LITS_NO_RAW_TAB if self.lits == 'no-raw-tab' else ['"plain"', '"tab\there"', '"raw	tab"', '"two  spaces "', '"q\\"uote"', '"// not a comment"', '"/* nor this */"',
                                '"\u00e9\u4e2d"', '"trailing \\\\"', '"%d\\n"', '"a" "b"', '""', 'L"wide"', '"#define X"'])
             ch = self.choice(["'x'", "'\\''", "'\t'", "'\\\\'", "'\"'", "'/'", "'*'"])
             return [I('g'), P('('), P('('), K('int'), P(')'), K('sizeof'), P('('), ('str', lit), P(')'), P(','), ('slot', ''), ('chr', ch), P(')'), P(';')]
@@ -140,6 +143,10 @@ class Gen:
                 t += [('stmt', depth, 'else'), K('else'), ('slot', '')] + self.body(vars_, depth, in_loop, in_switch)
             return t
         if k == 7:
+            if self.coin(0.3):      # an infinite loop header, with a trivia slot between the constant and ')'
+                return [K('while'), P('('), ('num', '1'), ('slot', ''), P(')'), ('slot', '')] + self.body(vars_, depth, True, in_switch, braces=True) if False else \
+                    [K('while'), P('('), ('num', '1'), ('slot', ''), P(')'), ('slot', ''), P('{')] + self.block_items(vars_, depth + 1, True, in_switch) + \
+                    [('stmt', depth + 1, 'stmt'), K('break'), P(';'), ('stmt', depth, 'close'), P('}')]
             return [K('while'), P('(')] + self.expr(vars_) + [P(')')] + self.body(vars_, depth, True, in_switch)
         if k == 8:
             init = self.choice([[], [I('i'), P('='), ('num', '0')]])
@@ -147,7 +154,7 @@ class Gen:
                 self.choice([[], [I('i'), P('++')], [P('++'), I('i')]]) + [P(')')] + self.body(vars_, depth, True, in_switch)
         if k == 9:
             return [K('do'), ('slot', '')] + self.body(vars_, depth, True, in_switch, braces=True if self.coin(0.8) else False) + \
-                [('stmt', depth, 'dowhile'), K('while'), P('(')] + self.expr(vars_) + [P(')'), P(';')]
+                [('stmt', depth, 'dowhile'), K('while'), P('(')] + (self.expr(vars_) if self.coin(0.7) else [('num', '0'), ('slot', '')]) + [P(')'), P(';')]
         if k == 10:
             t = [K('switch'), P('(')] + self.expr(vars_) + [P(')'), P('{')]
             for c in range(self.draw(st.integers(1, 3))):
@@ -259,8 +266,9 @@ PRELUDE = [
 
 
 @st.composite
-def c_program(draw, max_depth=4, pp=True, max_funcs=3):
+def c_program(draw, max_depth=4, pp=True, max_funcs=3, lits=True):
     g = Gen(draw, draw(st.integers(1, max_depth)), pp)
+    g.lits = lits
     toks = []
     if pp:
         for m in MACROS[:5]:
